@@ -79,6 +79,8 @@ static Outcome runCase(const KV& c)
     o.cls(std::string("geometry_") + std::to_string(cfg.geometry));
     o.cls(cfg.dirbc ? "dirbc" : "across_origin");
     o.cls(cfg.aniso ? "anisotropic_base_grid" : "uniform_base_grid");
+    if (cfg.grid_kind == 6)
+        o.cls("grids_written_to_files_and_loaded_back");
     const std::string an = cfg.aniso ? "aniso_" : "";
     const bool twoLevelSmall = cfg.max_levels == 2;
     if (twoLevelSmall)
@@ -221,6 +223,10 @@ static KV genCase()
         s.div        = 1;
     }
     s.via_cli = rint(0, 1);
+    // a sixth of the chains run the write-then-load workflow: every grid of the chain is written to files and loaded back
+    // (load_grid_file) by a solver whose generator options, R0 included, are left at their defaults
+    if (rint(0, 5) == 0)
+        s.grid_kind = 6;
     s.put(c);
     return c;
 }
